@@ -57,6 +57,19 @@ type c18S4 struct {
 	W [2]float32 `cty:"w"`
 }
 
+// pointer-bearing element types: every entry of a decoded container must get its own pointee
+type c18S5 struct {
+	N *int    `cty:"n"`
+	S *string `cty:"s"`
+}
+
+type c18S6 struct {
+	A *int              `cty:"a"`
+	B *int              `cty:"b"`
+	L []*string         `cty:"l"`
+	M map[string]*int16 `cty:"m"`
+}
+
 var (
 	c18BigIntT   = reflect.TypeOf(big.Int{})
 	c18BigFloatT = reflect.TypeOf(big.Float{})
@@ -80,10 +93,34 @@ var c18Family = []c18Fam{
 	{c18T(new(c18S1)), true}, {c18T(new(c18S2)), true}, {c18T(new(c18S3)), true}, {c18T(new(c18S4)), true},
 	{c18T(new(*c18S1)), true}, {c18T(new(map[string]c18S1)), true},
 	{c18BigIntT, true}, {c18BigFloatT, true}, {c18T(new(*big.Int)), true}, {c18ValueT, true},
+	// containers whose element type is or contains a pointer / slice: entries must not alias one another
+	{c18T(new(map[string]*int)), true}, {c18T(new(map[string]**int)), true}, {c18T(new(map[string]c18S5)), true}, {c18T(new(map[string]*c18S1)), true},
+	{c18T(new(map[string][]int)), true}, {c18T(new(map[string]map[string]*string)), true},
+	{c18T(new([]*int)), true}, {c18T(new([]**int8)), true}, {c18T(new([3]*int16)), true}, {c18T(new([]c18S5)), true}, {c18T(new([2]c18S5)), true},
+	{c18T(new(c18S6)), true}, {c18T(new([]*c18S6)), true}, {c18T(new(map[string]*big.Int)), true}, {c18T(new([]*big.Float)), true},
+	{c18T(new(c18Emb)), true}, {c18T(new([]c18Emb)), true}, // embedded (anonymous) struct field carrying a tag
 	{c18T(new([]cty.Value)), false}, // decode target only: a list of dynamic values has no single element type
 }
 
 var c18IntTypes = c18Family[:10]
+
+// Go types only ImpliedType (and the bridge type) is asked about: the error cases
+// (arrays, big numbers, structs without tags, at any depth) and a few more shapes.
+type c18InnerNoTag struct {
+	I c18NoTag `cty:"i"`
+}
+
+type c18DeepArr struct {
+	A int                  `cty:"a"`
+	M map[string][]*[2]int `cty:"m"`
+}
+
+var c18ImpliedOnly = []reflect.Type{
+	c18T(new(c18TaggedArr)), c18T(new([]big.Int)), c18T(new(map[string][2]int)), c18T(new(c18NoTag)), c18T(new(*c18NoTag)), c18T(new([]c18NoTag)),
+	c18T(new(struct{})), c18T(new(map[string]*big.Float)), c18T(new([0]int)), c18T(new(c18InnerNoTag)), c18T(new(c18DeepArr)), c18T(new(***c18S2)),
+	c18T(new(map[string]map[string][]c18S3)), c18T(new([][][]uint8)), c18T(new(*[]*map[string]*bool)), c18T(new([2][3]big.Int)), c18T(new(map[string]cty.Value)),
+	c18T(new([]*cty.Value)), c18T(new(*cty.Value)),
+}
 
 // ---- wire form of Go types and values (see lean/Driver/HGocty.lean) --------
 
@@ -363,6 +400,10 @@ type c18Gen struct {
 	mode   c18Mode
 	hitNFC bool // a non-NFC string was generated
 	hitNil bool // a nil pointer to a nilable / array / cty.Value pointee was generated
+	// distinct: every leaf gets a value of its own (1, 2, 3, ...), every slice and map has three
+	// entries and no pointer is nil, so that entries sharing a pointee after decoding show up
+	distinct bool
+	seq      int
 }
 
 var c18NonNFCAtoms = []string{"é", "Å", "가", "áb"}
@@ -414,7 +455,7 @@ func c18RandBigFloat(r *rand.Rand) *big.Float {
 	case 5:
 		return new(big.Float).Neg(new(big.Float).SetPrec(64)) // -0
 	default:
-		return new(big.Float).SetFloat64(math.Float64frombits(r.Uint64() &^ (0x7ff << 52)) * 8)
+		return new(big.Float).SetFloat64(math.Float64frombits(r.Uint64()&^(0x7ff<<52)) * 8)
 	}
 }
 
@@ -496,9 +537,19 @@ func (g *c18Gen) gen(rt reflect.Type, depth int) reflect.Value {
 	v := reflect.New(rt).Elem()
 	switch rt {
 	case c18BigIntT:
+		if g.distinct {
+			g.seq++
+			v.Set(reflect.ValueOf(*big.NewInt(int64(g.seq))))
+			return v
+		}
 		v.Set(reflect.ValueOf(*c18RandBigInt(r)))
 		return v
 	case c18BigFloatT:
+		if g.distinct {
+			g.seq++
+			v.Set(reflect.ValueOf(*new(big.Float).SetFloat64(float64(g.seq) + 0.5)))
+			return v
+		}
 		v.Set(reflect.ValueOf(*c18RandBigFloat(r)))
 		return v
 	case c18ValueT:
@@ -508,22 +559,55 @@ func (g *c18Gen) gen(rt reflect.Type, depth int) reflect.Value {
 	}
 	switch rt.Kind() {
 	case reflect.Int8, reflect.Int16, reflect.Int32, reflect.Int64, reflect.Int:
+		if g.distinct {
+			g.seq++
+			v.SetInt(int64(g.seq % 100))
+			break
+		}
 		v.SetInt(c18RandInt(r, rt.Bits()))
 	case reflect.Uint8, reflect.Uint16, reflect.Uint32, reflect.Uint64, reflect.Uint:
+		if g.distinct {
+			g.seq++
+			v.SetUint(uint64(g.seq % 100))
+			break
+		}
 		v.SetUint(c18RandUint(r, rt.Bits()))
 	case reflect.Float32:
+		if g.distinct {
+			g.seq++
+			v.SetFloat(float64(g.seq%100) + 0.5)
+			break
+		}
 		v.SetFloat(c18RandFloat(r, true))
 	case reflect.Float64:
+		if g.distinct {
+			g.seq++
+			v.SetFloat(float64(g.seq%100) + 0.25)
+			break
+		}
 		v.SetFloat(c18RandFloat(r, false))
 	case reflect.String:
+		if g.distinct {
+			g.seq++
+			v.SetString(fmt.Sprintf("s%d", g.seq))
+			break
+		}
 		v.SetString(g.str())
 	case reflect.Bool:
+		if g.distinct {
+			g.seq++
+			v.SetBool(g.seq%2 == 0)
+			break
+		}
 		v.SetBool(r.Intn(2) == 0)
 	case reflect.Slice:
-		if r.Intn(8) == 0 {
+		if !g.distinct && r.Intn(8) == 0 {
 			return v // nil
 		}
 		n := r.Intn(4)
+		if g.distinct {
+			n = 3
+		}
 		if depth <= 0 {
 			n = 0
 		}
@@ -537,16 +621,22 @@ func (g *c18Gen) gen(rt reflect.Type, depth int) reflect.Value {
 			v.Index(i).Set(g.gen(rt.Elem(), depth-1))
 		}
 	case reflect.Map:
-		if r.Intn(8) == 0 {
+		if !g.distinct && r.Intn(8) == 0 {
 			return v
 		}
 		n := r.Intn(4)
+		if g.distinct {
+			n = 3
+		}
 		if depth <= 0 {
 			n = 0
 		}
 		m := reflect.MakeMap(rt)
 		for i := 0; i < n; i++ {
 			k := c18MapKeys[r.Intn(len(c18MapKeys))]
+			if g.distinct {
+				k = c18MapKeys[i] // three different keys
+			}
 			if g.mode == c18NonNFC && r.Intn(3) == 0 {
 				k = c18NonNFCAtoms[r.Intn(len(c18NonNFCAtoms))]
 				g.hitNFC = true
@@ -556,7 +646,7 @@ func (g *c18Gen) gen(rt reflect.Type, depth int) reflect.Value {
 		v.Set(m)
 	case reflect.Ptr:
 		nilOK := !c18NilableElem(rt.Elem()) || g.mode == c18NilAny
-		if nilOK && r.Intn(3) == 0 {
+		if nilOK && !g.distinct && r.Intn(3) == 0 {
 			if c18NilableElem(rt.Elem()) {
 				g.hitNil = true
 			}
@@ -651,9 +741,9 @@ func c18Boundaries() []*big.Float {
 	}
 	add(new(big.Float).SetInf(false))
 	add(new(big.Float).SetInf(true))
-	add(new(big.Float).Neg(new(big.Float).SetPrec(64)))                  // -0
-	add(new(big.Float).SetPrec(8).SetInt64(96))                           // low precision
-	add(new(big.Float).SetPrec(3).SetInt64(128))                          // low precision, boundary
+	add(new(big.Float).Neg(new(big.Float).SetPrec(64)))                     // -0
+	add(new(big.Float).SetPrec(8).SetInt64(96))                             // low precision
+	add(new(big.Float).SetPrec(3).SetInt64(128))                            // low precision, boundary
 	add(new(big.Float).SetPrec(53).SetFloat64(math.SmallestNonzeroFloat64)) // tiny
 	return out
 }
@@ -871,6 +961,74 @@ func c18Nested(rt reflect.Type) bool {
 	return false
 }
 
+// c18SharedPointee reports a pointer (or the backing array of a non-empty slice, or a
+// map) that is reachable twice inside one decoded value: FromCtyValue builds a
+// fresh tree, so two entries sharing a pointee would let a write through one
+// show in the other.  big.Int / big.Float / cty.Value are opaque here.
+func c18SharedPointee(v reflect.Value) string {
+	seen := map[uintptr]string{}
+	var walk func(v reflect.Value, path string) string
+	walk = func(v reflect.Value, path string) string {
+		rt := v.Type()
+		if rt == c18BigIntT || rt == c18BigFloatT || rt == c18ValueT {
+			return ""
+		}
+		switch rt.Kind() {
+		case reflect.Ptr:
+			if v.IsNil() {
+				return ""
+			}
+			if p, ok := seen[v.Pointer()]; ok {
+				return p + " and " + path
+			}
+			seen[v.Pointer()] = path
+			return walk(v.Elem(), "*"+path)
+		case reflect.Slice:
+			if v.IsNil() || v.Len() == 0 {
+				return ""
+			}
+			if rt.Elem().Size() > 0 {
+				if p, ok := seen[v.Pointer()]; ok {
+					return p + " and " + path
+				}
+				seen[v.Pointer()] = path
+			}
+			fallthrough
+		case reflect.Array:
+			for i := 0; i < v.Len(); i++ {
+				if s := walk(v.Index(i), fmt.Sprintf("%s[%d]", path, i)); s != "" {
+					return s
+				}
+			}
+		case reflect.Map:
+			if v.IsNil() {
+				return ""
+			}
+			if v.Len() > 0 {
+				if p, ok := seen[v.Pointer()]; ok {
+					return p + " and " + path
+				}
+				seen[v.Pointer()] = path
+			}
+			keys := v.MapKeys()
+			sort.Slice(keys, func(i, j int) bool { return keys[i].String() < keys[j].String() })
+			for _, k := range keys {
+				if s := walk(v.MapIndex(k), fmt.Sprintf("%s[%q]", path, k.String())); s != "" {
+					return s
+				}
+			}
+		case reflect.Struct:
+			for i := 0; i < v.NumField(); i++ {
+				if s := walk(v.Field(i), path+"."+rt.Field(i).Name); s != "" {
+					return s
+				}
+			}
+		}
+		return ""
+	}
+	return walk(v, "t")
+}
+
 func runC18RoundTrip(ctx *Ctx) {
 	var fams []c18Fam
 	for _, f := range c18Family {
@@ -878,8 +1036,12 @@ func runC18RoundTrip(ctx *Ctx) {
 			fams = append(fams, f)
 		}
 	}
-	// ImpliedType / bridge type of every member of the family
-	for _, f := range c18Family {
+	// ImpliedType / bridge type of every member of the family and of the implied-only shapes
+	allImplied := append([]c18Fam{}, c18Family...)
+	for _, rt := range c18ImpliedOnly {
+		allImplied = append(allImplied, c18Fam{rt, false})
+	}
+	for _, f := range allImplied {
 		tw := encGoTy(f.rt)
 		bt, pure, berr := c18Bridge(f.rt)
 		var it cty.Type
@@ -898,20 +1060,23 @@ func runC18RoundTrip(ctx *Ctx) {
 			if pure && (ierr != nil || !it.Equals(bt)) {
 				ctx.Fail(Failure{Site: "implied", Sig: "ImpliedType differs from the documented mapping", What: "ImpliedType result", Input: tw, GoLit: f.rt.String(), Outcome: impl})
 			}
+			if !pure && ierr == nil {
+				ctx.Fail(Failure{Site: "implied", Sig: "ImpliedType accepts an array or big number", What: "ImpliedType documents no cty type for arrays and big numbers", Input: tw, GoLit: f.rt.String(), Outcome: impl})
+			}
+		} else {
+			ctx.Add("gocty.bridge", "err", tw)
+			if ierr == nil {
+				ctx.Fail(Failure{Site: "implied", Sig: "ImpliedType accepts a struct without cty tags", What: "a struct without tagged fields has no cty type", Input: tw, GoLit: f.rt.String(), Outcome: impl})
+			}
 		}
+		if impl == "panic" {
+			ctx.Fail(Failure{Site: "implied", Sig: "ImpliedType panics", What: "ImpliedType must return a type or an error", Input: tw, GoLit: f.rt.String(), Outcome: impl})
+		}
+		ctx.Tag("implied:" + impl[:2])
 		ctx.Eval("implied "+tw, c18Nested(f.rt))
 	}
-	n := ctx.N(3000, 60000)
-	for i := 0; i < n; i++ {
-		f := fams[i%len(fams)]
-		g := &c18Gen{r: ctx.R, mode: c18Clean}
-		switch ctx.R.Intn(10) {
-		case 0:
-			g.mode = c18NonNFC
-		case 1:
-			g.mode = c18NilAny
-		}
-		gv := g.gen(f.rt, 3)
+	one := func(f c18Fam, g *c18Gen, depth int) {
+		gv := g.gen(f.rt, depth)
 		ty, _, err := c18Bridge(f.rt)
 		if err != nil {
 			panic(err)
@@ -920,7 +1085,11 @@ func runC18RoundTrip(ctx *Ctx) {
 		tab, _ := c18NormTab(gv)
 		implTo, v, _, _ := c18To(gv, ty)
 		ctx.Add("gocty.tocty", implTo, gw, encTy(ty), tab)
-		ctx.Tag(fmt.Sprintf("rt-mode:%d", g.mode))
+		if g.distinct {
+			ctx.Tag("rt-mode:distinct")
+		} else {
+			ctx.Tag(fmt.Sprintf("rt-mode:%d", g.mode))
+		}
 		ctx.Tag("rt:" + f.rt.String())
 		ctx.Eval("rt "+gw+" "+tw, c18Nested(f.rt))
 		lit := fmt.Sprintf("g := %#v /* %s */; ty := %#v; v, _ := gocty.ToCtyValue(g, ty); var back %s; err := gocty.FromCtyValue(v, &back)", gv.Interface(), gw, ty, f.rt)
@@ -937,22 +1106,48 @@ func runC18RoundTrip(ctx *Ctx) {
 		}
 		if !strings.HasPrefix(implTo, "ok") {
 			fail("ToCtyValue: " + implTo)
-			continue
+			return
 		}
 		implFrom, target, _, _, _ := c18From(v, f.rt)
 		ctx.Add("gocty.fromcty", implFrom, encVal(v), tw)
 		if !strings.HasPrefix(implFrom, "ok") {
 			fail("FromCtyValue: " + implFrom)
-			continue
+			return
 		}
+		// encGoVal follows every pointer and prints the pointee, entry by entry: two entries that
+		// came back sharing one pointee print the same (last written) value and differ from gw
 		back := encGoVal(target.Elem())
 		if back != gw {
 			fail("came back as " + back)
-			continue
+			return
 		}
 		if !c18HasSpecial(f.rt) && !reflect.DeepEqual(target.Elem().Interface(), gv.Interface()) {
 			fail("reflect.DeepEqual is false although the canonical forms agree: " + back)
+			return
 		}
+		if shared := c18SharedPointee(target.Elem()); shared != "" {
+			fail("two entries of the decoded value share one pointee: " + shared)
+		}
+	}
+	// every member of the family once with all-distinct leaves, three entries per slice and map, no nil pointer
+	for _, f := range fams {
+		for depth := 2; depth <= 4; depth++ {
+			one(f, &c18Gen{r: ctx.R, mode: c18Clean, distinct: true}, depth)
+		}
+	}
+	n := ctx.N(40000, 400000)
+	for i := 0; i < n; i++ {
+		f := fams[i%len(fams)]
+		g := &c18Gen{r: ctx.R, mode: c18Clean}
+		switch ctx.R.Intn(10) {
+		case 0:
+			g.mode = c18NonNFC
+		case 1:
+			g.mode = c18NilAny
+		case 2, 3:
+			g.distinct = true
+		}
+		one(f, g, 3)
 	}
 	// NaN is outside the property; the model still has to agree on what happens
 	for _, x := range []interface{}{math.NaN(), float32(math.NaN()), []float64{1, math.NaN()}} {
@@ -965,7 +1160,7 @@ func runC18RoundTrip(ctx *Ctx) {
 	menu := []cty.Type{cty.Bool, cty.Number, cty.String, cty.DynamicPseudoType, cty.List(cty.String), cty.List(cty.Number), cty.Map(cty.Number), cty.Set(cty.String),
 		cty.EmptyObject, cty.Object(map[string]cty.Type{"a": cty.Number, "b": cty.String}), cty.Object(map[string]cty.Type{"a": cty.Number, "zz": cty.Bool}),
 		cty.EmptyTuple, cty.Tuple([]cty.Type{cty.Number, cty.String}), cty.Tuple([]cty.Type{cty.Number, cty.Number, cty.Number})}
-	m := ctx.N(1500, 20000)
+	m := ctx.N(15000, 150000)
 	for i := 0; i < m; i++ {
 		f := c18Family[ctx.R.Intn(len(c18Family))]
 		g := &c18Gen{r: ctx.R, mode: c18NilAny}
@@ -1088,17 +1283,50 @@ func runC18Decode(ctx *Ctx) {
 			emit(v, f.rt, "probe")
 		}
 	}
-	n := ctx.N(7000, 150000)
+	n := ctx.N(80000, 1000000)
 	for i := 0; i < n; i++ {
 		f := c18Family[i%len(c18Family)]
 		var v cty.Value
 		tag := "shaped"
-		switch ctx.R.Intn(6) {
+		switch ctx.R.Intn(7) {
 		case 0:
 			// arbitrary value of an arbitrary type
 			t := genTy(ctx.R, 2, TyOpts{Dyn: true, Capsule: true})
 			v = genVal(ctx.R, t, 2, vo)
 			tag = "random"
+		case 6:
+			// a set (visited in the order of set.Set.Values: strings by bytes, numbers by value,
+			// false before true, nulls last) into the target; for a slice or array target the set has
+			// the target's element type when that is a primitive one
+			_, base := c18Depth(f.rt)
+			et := []cty.Type{cty.String, cty.Number, cty.Bool, cty.List(cty.String)}[ctx.R.Intn(4)]
+			wantLen := -1
+			if base.Kind() == reflect.Slice || base.Kind() == reflect.Array {
+				if bt, _, err := c18Bridge(base.Elem()); err == nil && (bt == cty.String || bt == cty.Number || bt == cty.Bool) && ctx.R.Intn(5) != 0 {
+					et = bt
+				}
+				if base.Kind() == reflect.Array && ctx.R.Intn(3) != 0 {
+					wantLen = base.Len()
+				}
+			}
+			o := ValOpts{Null: ctx.R.Intn(3) == 0, Marks: ctx.R.Intn(6) == 0, Small: ctx.R.Intn(2) == 0}
+			k := ctx.R.Intn(5)
+			var elems []cty.Value
+			for tries := 0; tries < 40; tries++ {
+				if wantLen < 0 && len(elems) >= k {
+					break
+				}
+				elems = append(elems, genVal(ctx.R, et, 1, o))
+				if sv, _ := cty.SetVal(elems).Unmark(); wantLen >= 0 && sv.IsKnown() && sv.LengthInt() >= wantLen {
+					break
+				}
+			}
+			if len(elems) == 0 {
+				v = cty.SetValEmpty(et)
+			} else {
+				v = cty.SetVal(elems)
+			}
+			tag = "set"
 		case 1:
 			// positional decoding: a tuple with as many elements as the struct has fields
 			_, base := c18Depth(f.rt)
@@ -1179,6 +1407,7 @@ func runC18(ctx *Ctx) {
 	runC18Numbers(ctx)
 	runC18RoundTrip(ctx)
 	runC18Decode(ctx)
+	runC18Irregular(ctx)
 	ctx.res.Exhaustive = true
 	ctx.res.Scope = fmt.Sprintf("every integer width/sign (10 types) x %d boundary numbers (2^k, k in {0,7,8,15,16,31,32,63,64}, both signs, +-1, +-0.5, huge, infinite, -0, low precision); "+
 		"float32/float64 x %d boundary numbers (overflow thresholds and neighbours, subnormal halves, double-rounding ties, infinities); %d fixed probes x every target type of the family (%d types)",
@@ -1187,7 +1416,7 @@ func runC18(ctx *Ctx) {
 
 func init() {
 	register("C18", "numbers: boundary values of each of the ten integer widths and both float widths (+-1, +-0.5, huge, infinite) decoded by the real FromCtyValue; "+
-		"round trip: random Go values of a fixed family of 34 Go types (all int widths, floats, string, bool, slices, arrays, string-keyed maps, pointers incl. **int, "+
+		"round trip: random Go values of a fixed family of 49 Go types (all int widths, floats, string, bool, slices, arrays, string-keyed maps, pointers incl. **int, containers of pointers / of structs with pointer fields (every entry its own pointee; all-distinct three-entry values), "+
 		"nested tagged structs, big.Int, big.Float, embedded cty.Value) through ImpliedType/ToCtyValue/FromCtyValue; decoding: generated cty values (unknown, null, marked, "+
-		"shaped for the target or arbitrary, tuples positionally) into every target type. non-trivial = a boundary number or a nested Go type; distinct = distinct wire strings of the case", runC18)
+		"shaped for the target or arbitrary, tuples positionally, sets of primitive members in set iteration order) into every target type; irregular Go types (unsupported kinds, untagged structs, unexported tagged fields, non-string map keys) judged on the real code without the model; ImpliedType on every family type and on its error shapes. non-trivial = a boundary number or a nested Go type; distinct = distinct wire strings of the case", runC18)
 }
